@@ -56,6 +56,9 @@ type Case struct {
 	Hdrs     []PlanHdr `json:"hdrs"` // index 0 is unused (genesis)
 	Ops      []Op      `json:"ops"`
 	Twin     int       `json:"twin"`    // id of the control case (-1: none)
+	// plan indices of headers whose hashes are in Config.InvalidHeaderHashes; the model sees a
+	// mark of each (of a hash not yet known) as the first operations of the history
+	CfgInvalid []int `json:"cfg_invalid,omitempty"`
 	Control  bool      `json:"control"` // this case is a control (its failure is not reported)
 	Note     string    `json:"note,omitempty"`
 	// C12: crash points of operations that follow a reorg reaching below the load horizon of the
@@ -292,6 +295,18 @@ func newRunner(c *Case) *runner {
 	for i := range r.unknown {
 		r.unknown[i] = 0xee
 	}
+	if len(c.CfgInvalid) > 0 {
+		cfg := &headers.Config{Network: bitcoin.MainNet, MaxBranchDepth: c.MaxDepth}
+		for _, i := range c.CfgInvalid {
+			cfg.InvalidHeaderHashes = append(cfg.InvalidHeaderHashes, *r.hdrs[i].BlockHash())
+		}
+		r.cfg = cfg
+		r.store = storage.NewMockStorage()
+		r.rs = &recStore{MockStorage: r.store}
+		r.repo = headers.NewRepository(r.cfg, r.rs)
+		r.repo.DisableDifficulty()
+		r.repo.InitializeWithGenesis()
+	}
 	r.subs = []<-chan *wire.BlockHeader{r.repo.GetNewHeadersAvailableChannel()}
 	return r
 }
@@ -518,6 +533,8 @@ func (r *runner) exec(op Op) (o obs) {
 	case "unmark":
 		r.repo.MarkHeaderNotInvalid(r.ctx, *r.hdrs[op.I].BlockHash())
 		return obs{kind: "unit"}
+	case "cfgmark": // the hash is in the configuration: nothing to call
+		return obs{kind: "unit", pick: r.tipID()}
 	case "clean":
 		if err := r.repo.VerifClean(r.ctx, op.D); err != nil {
 			if os.Getenv("VERIF_DEBUG") != "" {
@@ -723,6 +740,8 @@ func coqCase(c *Case) (string, map[string]int) {
 			ops = append(ops, fmt.Sprintf("OMark %d %d", op.I+1, o.pick))
 		case "unmark":
 			ops = append(ops, fmt.Sprintf("OUnmark %d", op.I+1))
+		case "cfgmark":
+			ops = append(ops, fmt.Sprintf("OMark %d %d", op.I+1, o.pick))
 		case "clean":
 			ops = append(ops, "OClean "+coqfmt.Z(int64(op.D)))
 		case "save":
@@ -929,6 +948,63 @@ func genMarkCycle(r *coqfmt.Rand, id int, pf profile) Case {
 	return c
 }
 
+// genConfiguredInvalid: a hash listed in Config.InvalidHeaderHashes (the model: marked before
+// anything else). Its header and what is built on it are refused, through one or two Save/Load
+// generations (Load merges the configured list with the stored one: no duplicates); after the
+// last Load the hash is un-marked and the headers are accepted. (Un-marking a configured hash
+// BEFORE a Load is not a history of the model: Load puts it back from the configuration.)
+func genConfiguredInvalid(r *coqfmt.Rand, id int, pf profile) Case {
+	c := Case{ID: id, Mask: pf.mask, Twin: -1, Note: "configured-invalid-hash"}
+	c.MaxDepth = 144
+	t0 := uint32(1231006505)
+	c.Hdrs = make([]PlanHdr, 1)
+	height := []int{0}
+	add := func(p int, bits uint32) int {
+		c.Hdrs = append(c.Hdrs, PlanHdr{P: p, Bits: bits, T: t0 + uint32(600*(height[p]+1)) + uint32(r.Intn(500))})
+		height = append(height, height[p]+1)
+		return len(c.Hdrs) - 1
+	}
+	obs := func(op Op) { c.Ops = append(c.Ops, op, Op{K: "observe"}) }
+	main := []int{0}
+	for i := 4 + r.Intn(5); i > 0; i-- {
+		main = append(main, add(main[len(main)-1], 0x1d00ffff))
+	}
+	x := 2 + r.Intn(len(main)-2)
+	c.CfgInvalid = []int{main[x]}
+	obs(Op{K: "cfgmark", I: main[x]})
+	var other int
+	if r.Chance(1, 2) { // a second hash, marked at run time: the stored list has both
+		other = add(main[1], 0x1d00ffff)
+	}
+	for i := 1; i < len(main); i++ {
+		obs(Op{K: "submit", I: main[i]})
+	}
+	if other != 0 {
+		obs(Op{K: "mark", I: other})
+		obs(Op{K: "submit", I: other})
+	}
+	for g := 1 + r.Intn(2); g > 0; g-- {
+		if r.Chance(1, 3) {
+			obs(Op{K: "clean", D: 10000})
+		}
+		c.Ops = append(c.Ops, Op{K: "save"})
+		obs(Op{K: "load", D: 10000})
+		obs(Op{K: "submit", I: main[x]})
+	}
+	obs(Op{K: "unmark", I: main[x]})
+	for i := x; i < len(main); i++ {
+		obs(Op{K: "submit", I: main[i]})
+	}
+	if other != 0 && r.Chance(1, 2) {
+		obs(Op{K: "unmark", I: other})
+		obs(Op{K: "submit", I: other})
+	}
+	if r.Chance(1, 2) {
+		obs(Op{K: "save"})
+	}
+	return c
+}
+
 // genTrimmedParent builds "a branch hanging off the tip of a trimmed branch": a main chain, a side
 // branch S1, a branch S2 forking from the interior of S1; the header of S1 right above S2's fork
 // point is marked invalid (S1 now ends exactly where S2 starts); the state is persisted and
@@ -1071,6 +1147,9 @@ func genCase(r *coqfmt.Rand, id int, pf profile, size int) Case {
 	}
 	if pf.mark > 0 && (pf.clean > 0 || (pf.save > 0 && pf.load > 0)) && r.Chance(1, 12) {
 		return genTrimmedParent(r, id, pf)
+	}
+	if pf.mark > 0 && pf.save > 0 && pf.load > 0 && r.Chance(1, 12) {
+		return genConfiguredInvalid(r, id, pf)
 	}
 	c := Case{ID: id, Mask: pf.mask, Twin: -1}
 	c.MaxDepth = []int{0, 1, 2, 3, 5, 144, 144}[r.Intn(7)]
@@ -1229,10 +1308,14 @@ func prependChain(c Case, L int) Case {
 		t.Ops = append(t.Ops, Op{K: "submit", I: i})
 	}
 	for _, op := range c.Ops {
-		if op.K == "submit" || op.K == "mark" || op.K == "unmark" || op.K == "proof" {
+		if op.K == "submit" || op.K == "mark" || op.K == "unmark" || op.K == "proof" || op.K == "cfgmark" {
 			op.I += L
 		}
 		t.Ops = append(t.Ops, op)
+	}
+	t.CfgInvalid = nil
+	for _, i := range c.CfgInvalid {
+		t.CfgInvalid = append(t.CfgInvalid, i+L)
 	}
 	t.Note = fmt.Sprintf("base chain of %d headers", L)
 	return t
